@@ -88,7 +88,7 @@ class WeightBasedSQuad(BaseSQuad):
         xshape = x.shape
         nx = xshape[-1]
         x = x.reshape(-1, nx)
-        self.w = self.get_weights(x, **options)  # (*, nx, nx)
+        self.w = self.get_weights(x, **options).reshape(*xshape[:-1], nx, nx)  # (*, nx, nx)
 
     @abstractmethod
     def get_weights(self, x, **options):
